@@ -227,9 +227,6 @@ func (g *gcurve) exchange(priv *sm2.PrivateKey, peer *ecdsa.PublicKey, uid, peer
 	if !bytes.Equal(f.buf, f.orig) {
 		return nil, fmt.Errorf("NewKeyExchange/SetPeerParameters wrote into the caller's buffer holding uid and peerUID")
 	}
-	if err != nil && !late {
-		return ke, err
-	}
 	return ke, err
 }
 
